@@ -462,6 +462,9 @@ namespace occa {
       return memory();
     }
 
+    OCCA_ERROR("Trying to allocate negative entries (" << entries << ")",
+               entries >= 0);
+
     const dim_t bytes = entries * dtype.bytes();
     OCCA_ERROR("Trying to allocate negative bytes (" << bytes << ")",
                bytes >= 0);
@@ -531,6 +534,9 @@ namespace occa {
                                   const dtype_t &dtype,
                                   const occa::json &props) {
     assertInitialized();
+
+    OCCA_ERROR("Trying to wrap a pointer with negative entries (" << entries << ")",
+               entries >= 0);
 
     const dim_t bytes = entries * dtype.bytes();
     OCCA_ERROR("Trying to wrap a pointer with negative bytes (" << bytes << ")",
